@@ -20,6 +20,12 @@ var _ = API("rich", func() {
 	Meta("openapi:tag:alpha:desc", "first tag")
 	Meta("openapi:tag:mid:desc", "middle tag")
 	Meta("openapi:tag:mid:url", "http://example.com/mid")
+	Meta("openapi:tag:omega:desc", "omega")
+	Meta("openapi:tag:beta:desc", "beta")
+	Meta("openapi:tag:session:desc", "session")
+	Meta("openapi:extension:x-bb", `{"q":[1,2,3]}`)
+	Meta("openapi:extension:x-yy", `null`)
+	Meta("openapi:extension:x-cc", `1.5`)
 	Meta("openapi:extension:x-zz", `{"b":1,"a":2}`)
 	Meta("openapi:extension:x-aa", `"v"`)
 	Meta("openapi:extension:x-mm", `[3,2,1]`)
@@ -28,14 +34,26 @@ var _ = API("rich", func() {
 		Services("catalog", "orders")
 		Host("production", func() {
 			Description("prod")
-			URI("https://{version}.example.com/{region}")
+			URI("https://{version}.{zone}.example.com:{port}/{region}/{stage}")
 			Variable("version", String, "API version", func() { Default("v1"); Enum("v1", "v2") })
 			Variable("region", String, "region", func() { Default("eu") })
+			Variable("zone", String, "zone", func() { Default("a"); Enum("a", "b", "c") })
+			Variable("port", Int, "port", func() { Default(443) })
+			Variable("stage", String, "stage", func() { Default("live") })
 		})
 		Host("development", func() {
 			URI("http://localhost:8000")
 			URI("http://localhost:8001/alt")
 		})
+		Host("canary", func() { URI("https://canary.example.com") })
+		Host("backup", func() { URI("https://backup.example.com") })
+		Host("zlast", func() { URI("https://zlast.example.com") })
+	})
+	Server("mserver", func() {
+		Services("session", "orders", "admin", "catalog")
+		Host("one", func() { URI("http://localhost:8070") })
+		Host("two", func() { URI("http://localhost:8071") })
+		Host("three", func() { URI("http://localhost:8072") })
 	})
 	Server("aserver", func() {
 		Services("admin", "catalog")
@@ -54,17 +72,33 @@ var JWT = JWTSecurity("jwt", func() {
 	Scope("zz:write", "write")
 	Scope("aa:read", "read")
 	Scope("mm:admin", "admin")
+	Scope("bb:list", "list")
+	Scope("yy:purge", "purge")
+	Scope("cc:audit", "audit")
 })
 
 var KeyAuth = APIKeySecurity("api_key", func() { Description("key") })
 
 var Basic = BasicAuthSecurity("basic", func() { Description("basic") })
 
+var KeyAuth2 = APIKeySecurity("zz_key", func() { Description("second key") })
+
+var JWT2 = JWTSecurity("admin_jwt", func() {
+	Scope("root", "everything")
+	Scope("audit", "read logs")
+	Scope("impersonate", "act as a user")
+})
+
 var OAuth = OAuth2Security("oauth", func() {
 	AuthorizationCodeFlow("http://example.com/authorize", "http://example.com/token", "http://example.com/refresh")
 	ImplicitFlow("http://example.com/authorize", "http://example.com/refresh")
+	PasswordFlow("http://example.com/token", "http://example.com/refresh")
+	ClientCredentialsFlow("http://example.com/token", "http://example.com/refresh")
 	Scope("zz:write", "write")
 	Scope("aa:read", "read")
+	Scope("mm:admin", "admin")
+	Scope("bb:list", "list")
+	Scope("yy:purge", "purge")
 })
 
 // --- user types with several metas on one attribute
